@@ -2,6 +2,9 @@ package c01
 
 import (
 	"fmt"
+	"github.com/go-kid/ioc/app"
+	"github.com/go-kid/ioc/container/processors"
+	"os"
 	"reflect"
 	"sort"
 	"strings"
@@ -315,7 +318,6 @@ func TestScale(t *testing.T) {
 	})
 }
 
-
 // drawZPar gives every scale-family node a drawn "parent": the node is held by the qualified slice of that
 // Z type if it is registered - data-driven edges (random functional graphs: long chains, trees, big cycles)
 // on top of the family's static ring / skip / fan-in edges.
@@ -337,6 +339,7 @@ func drawZPar(t *rapid.T, s *graph.Scenario) {
 // and every component that never failed was initialised at most once.
 func TestPostStartHistory(t *testing.T) {
 	kit.Rec.Rule(rule)
+	knownStale := kit.IsKnown("dependant-keeps-early-reference-of-failed-lazy-creation")
 	rapid.Check(t, func(t *rapid.T) {
 		s := graph.Gen(t, graph.GenOpts{MinNodes: 3, MaxNodes: 6, Variants: "LLLNE", Aliases: true})
 		for i := range s.Nodes {
@@ -345,8 +348,29 @@ func TestPostStartHistory(t *testing.T) {
 			}
 		}
 		in := s.Instantiate()
+		in.ForceHook = true // the creation trace is needed below (which holder was published before which failure)
+		// now and then the non-pointer-referenced nodes are proxied consistently (a fresh proxy whenever an early
+		// reference is requested, nothing more after initialization - the auto-proxy idiom, never refused by the container): a retried creation builds a new one
+		var wrap *graph.WrapPP
+		var wrapped []string
+		if rapid.IntRange(0, 2).Draw(t, "proxies") == 0 {
+			wrap = &graph.WrapPP{Plan: map[string]graph.WrapPlan{}, IDOf: func(c any) int {
+				if id, ok := in.IDs[reflect.ValueOf(c).Pointer()]; ok {
+					return id
+				}
+				return -1
+			}}
+			for i, n := range s.Nodes {
+				if n.Variant != 'N' && rapid.Bool().Draw(t, "proxied") {
+					name, _ := model.NameOf(in.Comps[i])
+					wrap.Plan[name] = graph.WrapPlan{Early: graph.WrapNew, After: graph.WrapUnlessEarly}
+					wrapped = append(wrapped, fmt.Sprint(i))
+				}
+			}
+			in.Extra = append(in.Extra, wrap)
+		}
 		in.Run()
-		desc := "history " + s.Shape()
+		desc := "history " + s.Shape() + " proxied=" + strings.Join(wrapped, ",")
 		if in.Out.Panic != nil {
 			t.Fatalf("C01: panic %v\n%s", in.Out.Panic, desc)
 		}
@@ -366,6 +390,54 @@ func TestPostStartHistory(t *testing.T) {
 			}
 			if err := graph.CheckWiring(g, false); err != nil {
 				t.Fatalf("C01: after %v: %v\n%s", hist, err, desc)
+			}
+			// one version per component among the holders the container has created, and the one handed out by name
+			sight := map[string]any{}
+			where := map[string]string{}
+			lastFail, okAt := map[string]int{}, map[string]int{}
+			for i, e := range in.Tracer.Events {
+				if e.Op == "create-exit" {
+					if e.Err {
+						lastFail[e.Name] = i + 1
+					} else if e.Flag {
+						okAt[e.Name] = i + 1
+					}
+				}
+			}
+			for id := range in.Comps {
+				c := in.Comp(id)
+				if !in.WasCreated(id) {
+					continue
+				}
+				for _, p := range g.Points[c] {
+					for _, sn := range graph.Observe(g, p) {
+						tn := sn.TargetName(g)
+						if tn == "" || sn.Raw == nil {
+							continue
+						}
+						if knownStale && okAt[c.Name] < lastFail[tn] {
+							// known finding: this holder was published before the target's last failed attempt ended
+							// and may keep the early reference of that attempt; excluded by construction
+							kit.Rec.Exclude("dependant-keeps-early-reference-of-failed-lazy-creation")
+							continue
+						}
+						if prev, ok := sight[tn]; ok && prev != sn.Raw {
+							var evs []string
+							if os.Getenv("VERIF_DEBUG") != "" {
+								for i, e := range in.Tracer.Events {
+									if e.Op == "create-exit" || e.Op == "create-enter" || e.Op == "factory-run" {
+										evs = append(evs, fmt.Sprintf("%d:%s %s err=%v flag=%v", i, e.Op, e.Name, e.Err, e.Flag))
+									}
+								}
+							}
+							t.Fatalf("C01: two versions of %q are held: %s holds %v, %v holds %v\nhistory %v\n%s\n%s", tn, where[tn], prev, p, sn.Raw, hist, desc, strings.Join(evs, "\n"))
+						}
+						sight[tn], where[tn] = sn.Raw, p.String()
+						if h, ok := handed[tn]; ok && h != sn.Raw {
+							t.Fatalf("C01: %v holds %v but the lookup of %q handed out %v\nhistory %v\n%s", p, sn.Raw, tn, h, hist, desc)
+						}
+					}
+				}
 			}
 			for i, b := range in.Behs {
 				max := 1
@@ -387,7 +459,11 @@ func TestPostStartHistory(t *testing.T) {
 					if prev, ok := handed[n]; ok && prev != got {
 						t.Fatalf("C01: two lookups of %q returned different objects\nhistory %v\n%s", n, hist, desc)
 					}
-					if got != in.Comps[i] {
+					raw := got
+					if w, ok := got.(*zoo.W); ok && wrap != nil {
+						raw = w.Target
+					}
+					if raw != in.Comps[i] {
 						t.Fatalf("C01: lookup of %q returned %T %p, the registered component is %p\n%s", n, got, got, in.Comps[i], desc)
 					}
 					handed[n] = got
@@ -399,6 +475,9 @@ func TestPostStartHistory(t *testing.T) {
 				if err == nil {
 					seen := map[any]int{}
 					for _, c := range all {
+						if w, ok := c.(*zoo.W); ok && wrap != nil {
+							c = w.Target // a proxied component is listed through its proxy
+						}
 						seen[c]++
 					}
 					for _, c := range in.Comps {
@@ -419,4 +498,85 @@ func TestPostStartHistory(t *testing.T) {
 		})
 		kit.Rec.Case(desc+" | "+strings.Join(hist, ";"), len(hist) >= 3, "post-start-history")
 	})
+}
+
+// ---------------------------------------------------------------------------------------------------
+// Known finding C01/dependant-keeps-early-reference-of-failed-lazy-creation: fixed witness.
+//
+// All components are lazy; "k-a" is proxied by an auto-proxy style post-processor (a fresh proxy whenever an
+// early reference is requested; the container publishes the early reference). k-a wires k-b, k-c, k-d; k-b and
+// k-d wire k-a back; k-c fails its first initialisation.
+// Lookup 1 of k-a: k-b receives early proxy #1 of k-a and is published; k-c fails; the creation of k-a fails.
+// Lookup 2 of k-a: k-b is taken as published, k-c succeeds, k-d receives early proxy #2, which is published.
+// k-b keeps proxy #1 of the failed attempt: two versions of k-a are live.
+
+type KI interface{ isKA() }
+type KA struct {
+	B *KB `wire:""`
+	C *KC `wire:""`
+	D *KD `wire:""`
+}
+
+func (*KA) isKA()          {}
+func (*KA) LazyInit()      {}
+func (*KA) Naming() string { return "k-a" }
+
+type KB struct {
+	A KI `wire:""`
+}
+
+func (*KB) LazyInit() {}
+
+type KC struct{ inits int }
+
+func (*KC) LazyInit() {}
+func (c *KC) Init() error {
+	c.inits++
+	if c.inits == 1 {
+		return fmt.Errorf("first initialisation fails")
+	}
+	return nil
+}
+
+type KD struct {
+	A KI `wire:""`
+}
+
+func (*KD) LazyInit() {}
+
+type KProxy struct {
+	Target any
+	N      int
+}
+
+func (*KProxy) isKA() {}
+
+type kProxyPP struct {
+	processors.DefaultInstantiationAwareComponentPostProcessor
+	n    int
+	last *KProxy
+}
+
+func (p *kProxyPP) GetEarlyBeanReference(c any, name string) (any, error) {
+	if name != "k-a" {
+		return c, nil
+	}
+	p.n++
+	p.last = &KProxy{Target: c, N: p.n}
+	return p.last, nil
+}
+
+func TestKnownStaleEarlyReferenceAfterFailedCreation(t *testing.T) {
+	const class = "dependant-keeps-early-reference-of-failed-lazy-creation"
+	a, b, c, d := &KA{}, &KB{}, &KC{}, &KD{}
+	out := kit.RunApp(app.SetComponents(a, b, c, d, &kProxyPP{}))
+	if !out.OK() {
+		kit.Rec.KnownWitness(class, false, "start failed: "+out.String())
+		return
+	}
+	_, err1 := out.App.GetComponentByName("k-a")
+	got2, err2 := out.App.GetComponentByName("k-a")
+	fails := err1 != nil && err2 == nil && b.A != nil && any(b.A) != got2 && d.A != nil && any(d.A) == got2
+	kit.Rec.KnownWitness(class, fails, fmt.Sprintf("lookup 1 err=%v; lookup 2 err=%v returns %v; k-b holds %v, k-d holds %v", err1 != nil, err2, got2, b.A, d.A))
+	t.Logf("witness fails=%v: lookup 1 err=%v; lookup 2 err=%v returns %v; k-b holds %v, k-d holds %v", fails, err1, err2, got2, b.A, d.A)
 }
